@@ -28,6 +28,8 @@ pub struct Model {
     pub restart_at: Vec<usize>,
     pub jitter_ns: u64,
     pub ttl: u16,
+    /// emissions made from at_sim_end (never dispatched; they must not reach a later simulation): 0 none, 1 schedule_in, 2 send
+    pub end_emit: Vec<u8>,
 }
 
 pub fn gen_model(model_seed: u64) -> Model {
@@ -41,6 +43,7 @@ pub fn gen_model(model_seed: u64) -> Model {
         restart_at: (0..n).map(|_| if rng.chance(1, 3) { 1 + rng.usize_below(6) } else { 0 }).collect(),
         jitter_ns: *rng.pick(&[0u64, MS, 20 * MS]),
         ttl: 2 + rng.below(8) as u16,
+        end_emit: (0..n).map(|_| if rng.chance(1, 3) { 1 + rng.below(2) as u8 } else { 0 }).collect(),
     }
 }
 
@@ -138,6 +141,11 @@ impl Module for Node {
     }
 
     fn at_sim_end(&mut self) -> Result<(), RuntimeError> {
+        match self.model.end_emit[self.idx] {
+            1 => schedule_in(Message::default().kind(K_TIMER).id(0), Duration::from_nanos(3 * MS)),
+            2 => send(Message::default().kind(K_DATA).id(1).with_content(7u64), "out0"),
+            _ => {}
+        }
         Ok(())
     }
 }
